@@ -129,7 +129,7 @@ def run(ctx):
         from ..gen import g_gids
         from . import c17
         if g_gids.generate(ctx):
-            hg = cbuild.build(ctx, "h_gids", c17.SRCS)
+            hg = cbuild.build(ctx, "h_gids", c17.SRCS, libs=["-Wl,--wrap=hash_find"])
             if hg:
                 gg = c17.Gen(ctx, getattr(ctx, "gids_consts", {}))
                 gops = list(c17.FIXED) + [gg.basic() for _ in range(80 if ctx.tier == "quick" else 800)]
